@@ -12,6 +12,7 @@
 import AferoVerif.Model.Cache
 import AferoVerif.Proofs.CowContent
 import AferoVerif.Proofs.Reach
+import AferoVerif.Generated.Facts
 namespace AferoVerif.C10
 open AferoVerif AferoVerif.Cache
 
@@ -194,5 +195,11 @@ theorem miss_or_stale_serves_base (c : Cow) (dur : Int) (p : Str) (bf : Nat)
 /-- the cache layer of any history satisfies the hypothesis above -/
 theorem layer_reachable_ok (ops : List Op) : MemFs.InRange (MemFs.run MemFs.init ops) :=
   MemFs.reachable_inRange ops
+
+/-! ### tie to the source: constants regenerated from the Go code on every run -/
+
+/-- the mask by which `CacheOnReadFs.OpenFile` decides "opened for writing" (the model uses
+    `cowWriteMask` there) is the one written in cacheOnReadFs.go -/
+theorem cacheWriteMask_is_source : cowWriteMask = Generated.cacheWriteMask := by decide
 
 end AferoVerif.C10
